@@ -160,6 +160,17 @@ pub fn run(ctx: &Ctx) -> CheckResult {
             spaces.push(Space { cfg: Cfg::p3(k, tri[0], tri[1], tri[2]), alphabet: rough.clone(), depth: dr - 1, label: "S_rough" });
         }
     }
+    // scalar and bar inputs mixed on one instance
+    let mixed: Vec<Op> = vec![Op::S(1.0), Op::B(Bar::hlc(2.0, 1.0, 2.0)), Op::S(4.0), Op::B(Bar::hlc(4.0, 1.0, 1.0)), Op::S(-2.0), Op::B(Bar::hlc(4.0, 2.0, 4.0)), Op::Reset];
+    for n in 1..=3usize {
+        for k in [Kind::Sd, Kind::Mad, Kind::Sma, Kind::Wma, Kind::Ema, Kind::Min, Kind::Atr] {
+            spaces.push(Space { cfg: Cfg::p1(k, n), alphabet: mixed.clone(), depth: d - 2, label: "mixed scalar/bar" });
+        }
+        spaces.push(Space { cfg: Cfg::pm(Kind::Bb, n, 2.0), alphabet: mixed.clone(), depth: d - 2, label: "mixed scalar/bar" });
+        spaces.push(Space { cfg: Cfg::pm(Kind::Kc, n, 2.0), alphabet: mixed.clone(), depth: d - 2, label: "mixed scalar/bar" });
+        spaces.push(Space { cfg: Cfg::p3(Kind::Macd, n, n + 2, 2), alphabet: mixed.clone(), depth: d - 2, label: "mixed scalar/bar" });
+    }
+    spaces.push(Space { cfg: Cfg::p0(Kind::Tr), alphabet: mixed.clone(), depth: d - 1, label: "mixed scalar/bar" });
     // periods that are multiples of 2^32 (legal for window-less indicators)
     for &n in &[1usize << 32, (1usize << 32) + 2, 3usize << 32] {
         spaces.push(Space { cfg: Cfg::p1(Kind::Ema, n), alphabet: int.clone(), depth: d - 2, label: "huge period" });
@@ -303,6 +314,6 @@ pub fn run(ctx: &Ctx) -> CheckResult {
         res.absorb(merge_jobs(outs));
     }
     res.rule = "case = (configuration, history); invariants evaluated on the real output in every state: SD/MAD >= 0 and not NaN, TR/ATR >= 0, Minimum <= Maximum (paired run), lower <= average <= upper (BB, KC; multiplier >= 0), CE inside the reference window extremes, histogram = line - signal (MACD, PPO), SMA/WMA inside the window hull, EMA inside the history hull (last groups up to tau(t)*M); non-trivial = history longer than the window".into();
-    res.bounds = format!("seq(S_int+reset,{d}), seq(S_rough,{dr}) and seq(S_tiny+reset) scalar, seq(B_grid+reset,{db}) bars (ChandelierExit / KeltnerChannel also on the grid shifted to negative prices), periods 1..5, multipliers {{0,0.5,2,1e6}}; all 5^3 orderings of {{extremes, flat, spikes, osc, tick}} segments at scales 1e-3, 1, 1e9");
+    res.bounds = format!("seq(S_int+reset,{d}), seq(S_rough,{dr}) and seq(S_tiny+reset) scalar, seq(B_grid+reset,{db}) bars (ChandelierExit / KeltnerChannel also on the grid shifted to negative prices), periods 1..5, multipliers {{0,0.5,2,1e6}}; streams mixing scalars and bars on one instance; EMA periods that are multiples of 2^32; the same histories to depth 4/5 with a serde round trip / clone before the last operation; seq(S_signed_max = {{-1e308, 1e308, f64::MAX, f64::MIN, 1, 0}}+reset, 5/7) last (listed findings K6-K11 there); all 5^3 orderings of {{extremes, flat, spikes, osc, tick}} segments at scales 1e-3, 1, 1e9");
     res
 }
